@@ -1868,4 +1868,7 @@ theorem New_render (L : LIdl) (hfit : L.fits = true) : New L.render = .ok L.tree
   simp only
   rw [if_neg (by simpa [Idl.methods] using methods_ne_zero L.members hmeth)]
   rfl
+theorem erase_setDoc (m : LMember) (d : Bytes) : (m.erase d).setDoc [] = m.erase [] := by
+  cases m <;> rfl
+
 end Varlink.Idl
